@@ -27,6 +27,9 @@ def rand_vec(rng):
         if not big and k == 0 and rng.random() < 0.15:
             ln = rng.choice([4095, 4096, 4097])
         out.append(bytes(rng.choice([rng.randrange(1, 128), rng.randrange(128, 256), 0x3D, 0x20]) for _ in range(ln)))
+        # now and then an entry is a suffix of its predecessor, or equal to it
+        if k > 0 and out[-2] and rng.random() < 0.3:
+            out[-1] = out[-2][rng.randrange(0, len(out[-2])):]
     return out
 
 
@@ -67,6 +70,8 @@ def main():
         nv = 40 if tier == "quick" else 1500
         cfgs = [(rand_vec(rng), [e.replace(b"=", b"") + b"=" + e for e in rand_vec(rng)]) for _ in range(nv)]
 
+        layout = [""]
+
         def run_vec(j):
             argv, env = cfgs[j]
             sf = os.path.join(wd, "as%d.txt" % j)
@@ -81,8 +86,11 @@ def main():
             sb = os.path.join(wd, "asb%d" % j)
             os.makedirs(sb, exist_ok=True)
             import subprocess
-            p = subprocess.run([exe, sb, sf] + [a for a in argv] + [b"--"] + [e for e in env], stdout=subprocess.PIPE, stderr=subprocess.PIPE,
-                               env=dict(os.environ, ASAN_OPTIONS="detect_leaks=0"), timeout=60)
+            # the driver's "rotate" layout turns the pointers by one: hand it the strings turned the other way
+            unrot = (lambda x: x[1:] + x[:1]) if layout[0] == "rotate" else \
+                    (lambda x: x[:1] + x[1:-1][::-1] + x[-1:] if len(x) > 3 else x) if layout[0] == "midrev" else (lambda x: x)
+            p = subprocess.run([exe, sb, sf] + unrot([a for a in argv]) + [b"--"] + unrot([e for e in env]), stdout=subprocess.PIPE, stderr=subprocess.PIPE,
+                               env=dict(os.environ, ASAN_OPTIONS="detect_leaks=0", **({"VERIF_VEC_LAYOUT": layout[0]} if layout[0] else {})), timeout=60)
             shutil.rmtree(sb, ignore_errors=True)
             return p.returncode, [json.loads(l) for l in p.stdout.decode().splitlines() if l.startswith("{")], p.stderr.decode("utf8", "replace")
         vec_out = pmap(run_vec, range(nv))
@@ -94,6 +102,14 @@ def main():
         vec_out_be = pmap(run_vec, range(0, nv, 2 if tier == "quick" else 1))
         vec_out_be = dict(zip(range(0, nv, 2 if tier == "quick" else 1), vec_out_be))
         exe = exe_le
+        # the same vectors lying differently in the embedder's memory (separate allocations, pointers permuted within one block
+        # of strings, entries sharing their tails): what the guest is told depends on the vector, not on where its strings are
+        vec_out_lay = {}
+        for ln_, name_ in enumerate(("malloc", "rotate", "tails", "midrev")):
+            layout[0] = name_
+            sel = range(ln_ % 3, nv, 3) if name_ != "midrev" else [j_ for j_ in range(nv) if len(cfgs[j_][0]) > 3 or len(cfgs[j_][1]) > 3]
+            vec_out_lay[name_] = dict(zip(sel, pmap(run_vec, sel)))
+        layout[0] = ""
         for j, (argv, env) in enumerate(cfgs):
             for which, vec in (("args", argv), ("env", env)):
                 total = sum(len(x) + 1 for x in vec)
@@ -301,7 +317,8 @@ def main():
             v.deviation(sig, {"observation": b if kind != "spawn" else {"spawns": b["spawns"][:6], "starts": b["starts"][:6], "cell": b["cell"]}})
         # layouts vs what the real calls wrote
         compared = 0
-        for order, tagb, outs in (("little", "", dict(enumerate(vec_out))), ("big", ":big-endian-host", vec_out_be)):
+        for order, tagb, outs in [("little", "", dict(enumerate(vec_out))), ("big", ":big-endian-host", vec_out_be)] + \
+                                 [("little", ":strings-" + k_, o_) for k_, o_ in vec_out_lay.items()]:
           li = 0
           for j, (argv, env) in enumerate(cfgs):
               if j not in outs:
